@@ -37,8 +37,9 @@ def second_providers(rng, s):
     nid = max([c.id for c in s.cbs] + [0]) + 1
     aliased = {c.alias_of for c in s.cbs if c.alias_of} | {c.id for c in s.cbs if c.alias_of}
     provs = ["machine", "model"] + list(s.listeners_ctor)
+    sharing = {c.name for c in s.cbs if c.same_as}
     for c in list(s.cbs):
-        if c.style == "name" and c.group in ("before", "on") and c.id not in aliased and rng.random() < 0.35:
+        if c.style == "name" and c.group in ("before", "on") and c.id not in aliased and c.name not in sharing and rng.random() < 0.35:
             others = [p for p in provs if p != c.provider and not any(x.name == c.name and x.provider == p for x in s.cbs)]
             if others:
                 d = copy.deepcopy(c)
